@@ -49,6 +49,11 @@ def _targets(t, value, how, out, node):
         if how == 'assign' and isinstance(e, ast.Name) and not any(isinstance(x, ast.Starred) for x in t.elts):
           for d in out[before:]:
             d.index = i
+        elif how == 'assign' and isinstance(e, ast.Name) and sum(isinstance(x, ast.Starred) for x in t.elts) == 1:
+          # *head, a, b = seq / a, *rest, b = seq: the fixed targets are counted from their own end of the sequence
+          star = next(j for j, x in enumerate(t.elts) if isinstance(x, ast.Starred))
+          for d in out[before:]:
+            d.index = i if i < star else i - len(t.elts)
   elif isinstance(t, ast.Starred):
     _targets(t.value, value, 'unpack', out, node)
   # Attribute / Subscript targets define no local name
@@ -209,13 +214,17 @@ class Reaching:
           # a, b = [x, y]  (possibly through a local naming the list): the element at the target's position
           nn3 = nn | ({d.value.id} if isinstance(d.value, ast.Name) else frozenset())     # unpacking succeeds: the value is not None
           seq = sub(clone(d.value), d.node, depth - 1, nn3)
-          if isinstance(seq, (ast.Tuple, ast.List)) and d.index < len(seq.elts) and not any(isinstance(x, ast.Starred) for x in seq.elts):
+          if isinstance(seq, (ast.Tuple, ast.List)) and -len(seq.elts) <= d.index < len(seq.elts) and not any(isinstance(x, ast.Starred) for x in seq.elts):
             return seq.elts[d.index]
+          # a, b = Pair(x, y): a namedtuple of the module, constructed positionally (keywords were made positional at load time)
+          if isinstance(seq, ast.Call) and norm(seq.func).split('.')[-1] in getattr(rd, 'ntuples', ()) and not seq.keywords \
+              and -len(seq.args) <= d.index < len(seq.args) and not any(isinstance(x, ast.Starred) for x in seq.args):
+            return seq.args[d.index]
           # a, b, c = (E(col) for col in ('x', 'y', 'z')): the element for the literal at the target's position
           if isinstance(seq, (ast.GeneratorExp, ast.ListComp)) and len(seq.generators) == 1 and not seq.generators[0].ifs \
               and isinstance(seq.generators[0].target, ast.Name):
             it = seq.generators[0].iter
-            if isinstance(it, (ast.Tuple, ast.List)) and d.index < len(it.elts):
+            if isinstance(it, (ast.Tuple, ast.List)) and -len(it.elts) <= d.index < len(it.elts):
               tv, lit = seq.generators[0].target.id, it.elts[d.index]
 
               def subv(x_):
